@@ -1,6 +1,5 @@
 """C24 — coordination followers accept only the leader's valid proposal."""
 META = {
-    "disabled": True,
     "level": "model_checking",
     "text": "The TLA+ module specifies the follower's filter chain and fault list over message histories whose messages range over who "
             "really sent them and which seat they claim (leader's lowest seat, leader's other seat, another member, own seat, members and "
